@@ -18,7 +18,8 @@ PROPS = {
                 "occasional wrong-typed values, i64 extremes, NaN/inf/-0.0/subnormal), printed as GRL text and parsed by the real GRLParser: condition trees to depth 6 of &&, ||, !( ) over comparisons "
                 "(==,!=,<,<=,>,>= on fields, literals, field references and arithmetic with + - * / %, parentheses and negative literals; contains/startsWith/endsWith on strings; contains on arrays; in [..]; null tests; "
                 "1 in 20 leaves compare anything with anything); 1..3 assignments per rule (arithmetic, string concatenation, literals, field copies; targets: existing fields, new fields under existing objects, new "
-                "top-level names, paths under absent objects). Observed: the parsed Rule structures, every firing with the complete fact store after it (callback of execute_with_callback), cycle / evaluated / fired counters "
+                "top-level names, paths under absent objects); plus feeding chains (a quarter as many cases): lower-salience rules write, flat or nested, the very field a higher-salience rule tests, so that a rule is false when first "
+                "considered and true in a later pass. Every case also runs through plain `execute` on a fresh engine (result and final facts). Observed: the parsed Rule structures, every firing with the complete fact store after it (callback of execute_with_callback), cycle / evaluated / fired counters "
                 "or the error. non-trivial = at least one firing",
         "level_text": "Theorems (Coq, every rule set / fact store / text): (1) evaluate_expression applied to the printed text of ANY well-formed tree applies each operator to the values of exactly its two sub-trees "
                 "(precedence, left associativity, parentheses, negative and string literals recovered from the string by the rightmost-operator split with byte offsets); (2) the operator table: wherever the documented "
